@@ -89,6 +89,9 @@ def conforms(eng, v, code):
     if code in ('as', 'ao'):
         return z3.BoolVal((isinstance(t, TList) and t.elem is TStr) or v.py == ('emptylist',))
     if code == 'a{sv}':
+        if is_py(v, 'kwdict'):
+            # a dict display with literal text keys: every value must marshal as a variant
+            return z3.And(*[conforms(eng, x, 'v') for x in v.py[1].values()]) if v.py[1] else z3.BoolVal(True)
         if isinstance(t, TDict) and t.k is TStr:
             hook = eng.spec.callbacks.get('dict_values_conform')
             if hook is not None:
